@@ -95,10 +95,30 @@ func main() {
 		file = file[0 : len(file)-len(filepath.Ext(in))] // Remove extension.
 
 		target := filepath.Join(options.out, fmt.Sprintf("%s.%s", file, conv.Extension()))
-		temp := target + ".tmp"
+		var tempFile *os.File
+		temp := ""
 
 		// Write to a temporary file first to make sure a failing write doesn't leave a partial (or destroy an existing) output file.
-		if err := os.WriteFile(temp, []byte(dump), 0777); err != nil {
+		// The temporary file is always a new file, no existing file (e.g. the input) is used for it.
+		for i := 0; ; i++ {
+			temp = fmt.Sprintf("%s.%d.tmp", target, i)
+			tempFile, err = os.OpenFile(temp, os.O_WRONLY|os.O_CREATE|os.O_EXCL, 0777)
+
+			if !os.IsExist(err) {
+				break
+			}
+		}
+
+		if err != nil {
+			panic(err)
+		}
+		_, err = tempFile.WriteString(dump)
+
+		if errClose := tempFile.Close(); err == nil {
+			err = errClose
+		}
+
+		if err != nil {
 			os.Remove(temp)
 			panic(err)
 		}
